@@ -30,6 +30,9 @@ package api
 //@   assume sessionsOK()
 //@   modifies *
 //@   ensures r0 != nil ==> (exists k string :: has(sessions, k) && sessions[k].token == r0)
+// a request that is refused leaves every session as it was: in particular an expired session is
+// not revived by presenting its cookie again
+//@   ensures r0 == nil ==> (forall s *session :: s != nil ==> s.validUntil.wall == old(s.validUntil.wall) && s.validUntil.ext == old(s.validUntil.ext))
 
 //@ func (*session).Refresh
 //@   requires sess != nil
